@@ -192,6 +192,7 @@ fn mask_keeps(mask: &str, i: usize) -> bool {
     match mask {
         "c01" => i < 7 || (23 <= i && i < 34),
         "c02" => 7 <= i && i < 27,
+        "c04" => (1 <= i && i < 7) || (10 <= i && i < 18) || (24 <= i && i < 27) || (28 <= i && i < 30) || (31 <= i && i < 34),
         _ => true,
     }
 }
